@@ -320,10 +320,18 @@ func lateFilterScenario(i *Iface, kind, side string) *vm.Scenario {
 }
 
 // (e) concurrency: callers share one proxy and call with distinct values.
+// bigReply > 0: in the next concurrentScenario every string typed out parameter and return value is this many
+// bytes long (distinct per caller): replies far beyond the sizes at which a transport may split its writes
+var bigReply int
+
 func concurrentScenario(i *Iface, f *Func, callers int, pool int32, ownProxies ...bool) *vm.Scenario {
 	var bad []string
+	big := bigReply
 	own := len(ownProxies) > 0 && ownProxies[0] // every caller has its own proxy object for the same remote object
 	sc := &vm.Scenario{Name: fmt.Sprintf("concurrent %d callers pool=%d %s", callers, pool, f.Full), MaxSteps: 2000000}
+	if big > 0 {
+		sc.Name = fmt.Sprintf("concurrent %d callers pool=%d replies with strings of %d bytes %s", callers, pool, big, f.Full)
+	}
 	if own {
 		sc.Name = fmt.Sprintf("concurrent %d callers with a proxy object each pool=%d %s", callers, pool, f.Full)
 	}
@@ -340,6 +348,9 @@ func concurrentScenario(i *Iface, f *Func, callers int, pool int32, ownProxies .
 				l := ref.Lattice(p.Type, ref.Small)
 				v := l[(k+1)%len(l)].Clone()
 				if p.Out {
+					if big > 0 && p.Type.Kind == ref.KString {
+						v = ref.VString(strings.Repeat(string(rune('a'+k)), big+k))
+					}
 					cs.sc.outs[pi] = v
 				} else {
 					cs.ins[pi] = v
@@ -348,6 +359,9 @@ func concurrentScenario(i *Iface, f *Func, callers int, pool int32, ownProxies .
 			if f.Ret != nil {
 				l := ref.Lattice(f.Ret, ref.Small)
 				cs.sc.ret = l[(k+2)%len(l)].Clone()
+				if big > 0 && f.Ret.Kind == ref.KString {
+					cs.sc.ret = ref.VString(strings.Repeat(string(rune('A'+k)), big+k))
+				}
 			}
 			cs.sc.rspCtx = map[string]string{"who": cs.id}
 			cs.reqCtx = copyMap(cs.opts[0])
@@ -570,6 +584,29 @@ func Main(corpusJSON string) {
 			cases = append(cases, e1.Case{Sc: named(concurrentScenario(f.If, f, 2, 0), pol, deep+10), Opt: vm.Options{Bound: deep, StrictDev: true, Policy: pol, Prune: true}, Budget: budget, MinOutcomes: 1})
 			cases = append(cases, e1.Case{Sc: named(concurrentScenario(f.If, f, 3, 1), pol, b3), Opt: vm.Options{Bound: b3, StrictDev: true, Policy: pol}, Budget: budget, MinOutcomes: 1})
 			cases = append(cases, e1.Case{Sc: named(concurrentScenario(f.If, f, 2, 0, true), pol, b2), Opt: vm.Options{Bound: b2, StrictDev: true, Policy: pol}, Budget: budget, MinOutcomes: 1})
+		}
+	}
+	// replies of 40 KB and 100 KB written at the same time by the handlers of two calls on one connection
+	var bigF *Func
+	for _, i := range ifaces {
+		for _, f := range i.funcs {
+			str := f.Ret != nil && f.Ret.Kind == ref.KString
+			for _, p := range f.Params {
+				str = str || (p.Out && p.Type.Kind == ref.KString)
+			}
+			if str && bigF == nil {
+				bigF = f
+			}
+		}
+	}
+	if bigF != nil {
+		for _, n := range []int{40000, 100000} {
+			for pol := 0; pol < 3; pol++ {
+				bigReply = n
+				cases = append(cases, e1.Case{Sc: named(concurrentScenario(bigF.If, bigF, 2, 0), pol, 1), Opt: vm.Options{Bound: 1, StrictDev: true, Policy: pol}, Budget: budget, MinOutcomes: 1})
+				cases = append(cases, e1.Case{Sc: named(concurrentScenario(bigF.If, bigF, 3, 2), pol, 1), Opt: vm.Options{Bound: 1, StrictDev: true, Policy: pol}, Budget: budget, MinOutcomes: 1})
+				bigReply = 0
+			}
 		}
 	}
 	for _, pool := range []int32{0, 1} {
